@@ -29,6 +29,7 @@ From Coq Require Import Permutation.
 From Astisub Require Import Proofs.EolProofs Proofs.SsaFields Proofs.SsaText Proofs.SsaRows Proofs.SsaDoc Proofs.SsaInfo Proofs.SsaInfoOrder Proofs.SsaIgnore Proofs.SsaOrder Proofs.SsaRepr Proofs.SsaRead Proofs.SsaReadAny Proofs.SsaEvents Proofs.SsaWriteRender.
 From Astisub Require Import Proofs.SsaStyles Proofs.SsaRewrite Proofs.FuelSsa.
 From Astisub Require Import Kit.Chk Model.SsaC Proofs.SsaChk.
+From Astisub Require Import Proofs.SsaReadAll.
 Import ListNotations.
 
 (* ---- field codecs ---- *)
@@ -514,3 +515,73 @@ Example C04_time_three_digit_hours_example : parse_time (s2l "100:00:00.00"%stri
 Proof. vm_compute. reflexivity. Qed.
 Example C04_number_outside_domain : parse_float3 (s2l "20.1234"%string) = None /\ parse_float3 (s2l "1e2"%string) = None.
 Proof. vm_compute. split; reflexivity. Qed.
+(* ---- reading, every line the format tolerates (Proofs/SsaReadAll.v) ----
+   C04_read_sections covers documents made of section headers, "; c" comments and known key lines in script info
+   sections, one Format line per styles / events section and Style / Dialogue rows.  Real ASS files also contain, and
+   the reader tolerates:
+   * unknown keys in [Script Info] (ScaledBorderAndShadow: yes, YCbCr Matrix: TV.601, ...).  unknown_key_line l: the
+     trimmed line is not bracketed, does not start with ';' or ':', contains a ':' (kv_trimmed) and the trimmed text
+     before its first ':' (kv_header) is none of info_key_names -- the 11 text keys, PlayDepth / PlayResX / PlayResY
+     and Timer, i.e. the case labels of ssaScriptInfo.parse.  The value may be empty or contain colons.  Such a line
+     is a no-op in a script info section (C04_unknown_info_key_ignored); C04_info_key_names_exact: the list is exact
+     (a header in the list is one of the modelled keys, so it is looked at).
+   * lines before the first section header: comment lines count as script info comments (PC), every other line that
+     is not a section header is skipped (PS: unintelligible lines, "key: value" lines, rows).  Only the very first
+     line of the input is looked at without its byte-order mark (adoc_ok: flag true for the first line only).
+   * in styles / events sections (bline): comment lines (LComment, in any spelling ";c", "; c", ";  c  "; they are
+     appended to the script info comments in document order across all sections), unintelligible lines (LJunk),
+     several Format lines (LFormat v cols: format_value v cols; the columns in force after it are
+     overlay cols previous = cols ++ skipn (length cols) previous, as in the Go map that is only emptied by a section
+     header), rows under ANY header but Format (LStyle h: a styles section does not look at the header; LEvent h: an
+     event of category h), each valid for the columns in force at that point (style_row / event_row_h) with cols <> []
+     (without a Format line before, the reader fails: no format provided).  Events whose category is not Dialogue
+     are parsed -- so they must be well formed -- and dropped at the end: the items are those of
+     filter is_dialogue (all events), which C04_dialogue_rows identifies with the rows whose header is Dialogue.
+   * sections of another name (AUnknown): every line up to the next header, comments included, is skipped.
+   Side conditions as for C04_read_sections: info_ok b; the comment lines of the whole document are b's comments in
+   order; every key occurs (a key b has no value for contributes no line).  C04_read_sections_again: C04_read_sections
+   is the instance pre = [], secs = map embed secs (embed_lines / embed_ok: same lines, same hypotheses). *)
+Theorem C04_unknown_info_key_ignored : forall s l, rs_sect s = SInfo -> unknown_key_line l -> ssa_step s false l = Ok s.
+Proof. exact unknown_key_step. Qed.
+Print Assumptions C04_unknown_info_key_ignored.
+Theorem C04_unknown_info_key_parse : forall i h c, ~ In h info_key_names -> info_parse i h c = Ok i.
+Proof. exact info_parse_unknown. Qed.
+Print Assumptions C04_unknown_info_key_parse.
+Theorem C04_info_key_names_exact : forall h, In h info_key_names ->
+  (exists k, h = ikey_name k) \/ (exists k, h = nkey_name k) \/ h = n_timer.
+Proof. exact info_key_names_known. Qed.
+Print Assumptions C04_info_key_names_exact.
+Theorem C04_read_sections_all : forall b pre secs e, info_ok b -> adoc_ok pre secs ->
+  comments_of (adoc_entries pre secs) = an_comments b -> (forall f, In (IK f) (adoc_entries pre secs)) ->
+  let sts := flat_map asec_styles secs in
+  read_ssa_lines (adoc_lines b pre secs) e =
+  if e then Err EIO
+  else Ok (mkAdoc (Some b) (styles_map sts)
+                  (map (fun ev => event_item ev (styles_map sts)) (filter is_dialogue (flat_map asec_events secs)))).
+Proof. exact read_sections_all. Qed.
+Print Assumptions C04_read_sections_all.
+Theorem C04_dialogue_rows : forall pre secs, adoc_ok pre secs ->
+  filter is_dialogue (flat_map asec_events secs) = flat_map asec_dialogues secs.
+Proof. exact dialogue_rows. Qed.
+Print Assumptions C04_dialogue_rows.
+Theorem C04_read_sections_again : forall b secs e, info_ok b ->
+  match secs with [] => True | x :: r => rsec_ok true x /\ Forall (rsec_ok false) r end ->
+  comments_of (flat_map entries_of secs) = an_comments b -> (forall f, In (IK f) (flat_map entries_of secs)) ->
+  let sts := flat_map styles_of secs in
+  read_ssa_lines (flat_map (rsec_lines b) secs) e =
+  if e then Err EIO
+  else Ok (mkAdoc (Some b) (styles_map sts) (map (fun ev => event_item ev (styles_map sts)) (flat_map events_of secs))).
+Proof. exact read_sections_again. Qed.
+Print Assumptions C04_read_sections_again.
+(* the document z_pre / z_secs of Proofs/SsaReadAll.v, line by line:
+     ; top / some junk / [Script Info] / Title: t: x / ScaledBorderAndShadow: yes / ; c / YCbCr Matrix: TV.601 /
+     Video Zoom: / Audio URI: a:b: c / what is this / ;d / WrapStyle: 1 / [EVENTS] /
+     Format: End,Style , Start,Nonsense,Text / Dialogue: 0:00:03.00,*Main,0:00:01.50,?,Hello, world\N{\i1}x /
+     Format: Style, End   (columns in force: Style, End, Start, Nonsense, Text) /
+     Dialogue: Main,0:00:05.00,0:00:04.00,?,second, line / Comment: Main,0:00:05.00,0:00:04.00,?,note /
+     [Fonts] / fontname: x.ttf / ; no comment here / [v4+ styles] / Format: Bold ,Name,Whatever,  TertiaryColour, Fontsize /
+     Style: -1,Main,junk,&H0000FFFF,20.5 / ; between / Foo: 0,Alt,x,,12 / no colon here
+   is read as z_expected: the comments top, c, d, between; Title and WrapStyle; the styles Main and Alt; the two
+   Dialogue items (1.5 s - 3 s, two lines; 4 s - 5 s), both with style Main *)
+Example C04_read_sections_all_example : read_ssa_lines (adoc_lines z_info z_pre z_secs) false = Ok z_expected.
+Proof. exact z_read. Qed.
